@@ -11,7 +11,14 @@
    trace_class, timer_class and for_all_methods return the very object they were given, unmodified,
    and impose no checks; with the variable unset or set to 1 (or after enable_pedantic()) they check.
    The switch is read only when a decorator is applied: toggling it afterwards never changes the
-   behaviour of already decorated callables."                                                      *)
+   behaviour of already decorated callables."
+
+   Objects live in a heap (Model/EnvSwitch.v): the object handed to a decorator may be fresh, an object that went
+   through a decorator earlier in the history (ORedecorate) or a new subclass of such a class (OSubDecorate).
+   `wf s`: every object of s refers to cells that exist - true of the initial state and kept by every operation
+   (C09_reachable_wf).  `redeco_only_disabled e h`: every re-decoration in h happens while the variable is "0"
+   (the value followed through h from e); an ENABLED re-decoration of a class changes that class in place, which is
+   the one thing after which an object decorated while the switch was off need not be plain any more.            *)
 From Coq Require Import List Bool String Arith.
 From PV Require Import Base.Exn Model.EnvSwitch Spec.EnvSpec Proofs.EnvProofs Model.EnvEval Gen.Env.
 Import ListNotations.
@@ -69,60 +76,77 @@ Proof.
 Qed.
 Print Assumptions C09_cross_reference.
 
-(* for env in {unset,"0","1"}: all seven decorators return the very object iff the switch is "0",
-   and the object they return behaves accordingly (no checks / checks) under every later environment *)
-Theorem C09_identity_iff_disabled : forall d x s, in_domain (env s) = true ->
-  let (s', o) := step M s (ODecorate d x) in
-  (o = ODeco true <-> env s = Val "0"%string) /\
-  (o = ODeco false <-> (env s = Unset \/ env s = Val "1"%string)) /\
-  (env s = Val "0"%string -> nth_error (objs s') (List.length (objs s)) = Some (Identity x) /\
-                    forall e, call_behaviour M (Identity x) e = Plain) /\
-  (env s = Unset \/ env s = Val "1"%string -> nth_error (objs s') (List.length (objs s)) = Some (Wrapped d x) /\
-                    forall e, call_behaviour M (Wrapped d x) e = Checked).
+(* every state that can be reached from the initial one is well formed (the hypothesis `wf` below) *)
+Theorem C09_reachable_wf : forall e h, wf (fst (run_ops M (init_state e) h)).
+Proof. intros e h. apply run_wf. apply wf_init. Qed.
+Print Assumptions C09_reachable_wf.
+
+(* for env in {unset,"0","1"}: all seven decorators, applied to a fresh function / class, return the very object iff the
+   switch is "0", and the object they return behaves accordingly (no checks / checks) under every value of the variable *)
+Theorem C09_identity_iff_disabled : forall d s, in_domain (env s) = true -> wf s ->
+  let r := step M s (ODecorate d) in
+  (snd r = ODeco true <-> env s = Val "0"%string) /\
+  (snd r = ODeco false <-> (env s = Unset \/ env s = Val "1"%string)) /\
+  exists o, nth_error (objs (fst r)) (List.length (objs s)) = Some o /\
+    (env s = Val "0"%string -> o_res o = o_given o /\ forall e, call_behaviour M (fst r) o e = Plain) /\
+    (env s = Unset \/ env s = Val "1"%string -> forall e, call_behaviour M (fst r) o e = Checked).
 Proof.
-  intros d x s Hd. rewrite (decorate_obs M C09_model_good s d x Hd).
-  assert (Hn : forall o, nth_error (objs s ++ [o]) (List.length (objs s)) = Some o) by (intro o; apply nth_last).
-  apply in_domain_cases in Hd. destruct Hd as [H|[H|[H|[]]]]; rewrite <- H;
-    cbn [spec_enabled String.eqb Ascii.eqb Bool.eqb add_obj objs env];
-    repeat split; intros;
-    try match goal with D : _ \/ _ |- _ => destruct D end;
-    try discriminate; try reflexivity; auto; try apply Hn;
-    apply (wrapped_checked M C09_model_good).
+  intros d s Hd W r.
+  destruct (decorate_fresh_result M C09_model_good s d None Hd W) as (O & _ & _ & _ & o & Ho & _ & _ & _ & Hc & Hi).
+  change (decorate_fresh M s d None (env s)) with r in *.
+  assert (CB : forall e, call_behaviour M (fst r) o e = if spec_enabled (env s) then Checked else Plain).
+  { intro e. unfold call_behaviour. now rewrite (cell_behaviour_checked_at M C09_model_good), Hc. }
+  rewrite O. apply in_domain_cases in Hd. destruct Hd as [H|[H|[H|[]]]]; rewrite <- H in *;
+    cbn [spec_enabled String.eqb Ascii.eqb Bool.eqb negb] in *;
+    (split; [split; intros; try discriminate; reflexivity|]);
+    (split; [split; intros; try match goal with D : _ \/ _ |- _ => destruct D end; try discriminate; auto|]);
+    exists o; (split; [exact Ho|]); split; intros;
+    try match goal with D : _ \/ _ |- _ => destruct D end; try discriminate; auto.
 Qed.
 Print Assumptions C09_identity_iff_disabled.
 
 (* the same after enable_pedantic() / disable_pedantic(), from ANY previous value of the variable *)
-Theorem C09_identity_after_toggle : forall d x s,
-  snd (step M (fst (step M s ODisable)) (ODecorate d x)) = ODeco true /\
-  snd (step M (fst (step M s OEnable)) (ODecorate d x)) = ODeco false.
+Theorem C09_identity_after_toggle : forall d s,
+  snd (step M (fst (step M s ODisable)) (ODecorate d)) = ODeco true /\
+  snd (step M (fst (step M s OEnable)) (ODecorate d)) = ODeco false.
 Proof.
-  intros d x s. destruct (good_parts M C09_model_good) as (_ & EN & DI & _).
-  split.
-  - rewrite (decorate_obs M C09_model_good) by (simpl; try rewrite DI; reflexivity). simpl; try rewrite DI; reflexivity.
-  - rewrite (decorate_obs M C09_model_good) by (simpl; try rewrite EN; reflexivity). simpl; try rewrite EN; reflexivity.
+  intros d s. destruct (good_parts M C09_model_good) as (_ & EN & DI & _).
+  split; cbn [step fst with_env env]; [rewrite DI|rewrite EN]; cbn [run_assign];
+    now rewrite (decorate_fresh_obs M C09_model_good).
 Qed.
 Print Assumptions C09_identity_after_toggle.
 
-(* the switch is read only at decoration: whatever finite history of setenv (ANY value) / unsetenv /
-   enable / disable / further decorations / calls follows, calling an already decorated object
-   behaves the same; s is ANY state (any value of the variable, any earlier history) *)
-Theorem C09_read_only_at_decoration : forall s d x h1 h2,
-  let s0 := fst (step M s (ODecorate d x)) in
+(* the switch is read only at decoration: whatever finite history of setenv (ANY value) / unsetenv / enable / disable /
+   further decorations / creation and application of decorator objects / calls / decorations of subclasses /
+   re-decorations made while the variable is "0" follows, calling an already decorated object behaves the same;
+   s is ANY reachable state (any value of the variable, any earlier history) *)
+Theorem C09_read_only_at_decoration : forall s d h1 h2, wf s ->
+  redeco_only_disabled (env s) h1 = true -> redeco_only_disabled (env s) h2 = true ->
+  let s0 := fst (step M s (ODecorate d)) in
   let i := List.length (objs s) in
   snd (step M (fst (run_ops M s0 h1)) (OCall i)) = snd (step M (fst (run_ops M s0 h2)) (OCall i)).
-Proof.
-  intros s d x h1 h2 s0 i.
-  (* the decoration cannot have raised: the regenerated is_enabled never raises *)
-  destruct (decorate_appends M (proj1 (proj2 C09_switch_logic)) s d x) as [o E].
-  exact (read_only_at_decoration M C09_model_good s0 i o h1 h2 E).
-Qed.
+Proof. exact (read_only_at_decoration M C09_model_good (proj1 (proj2 C09_switch_logic))). Qed.
 Print Assumptions C09_read_only_at_decoration.
 
-(* both halves in one statement: decorate (any of the seven) in ANY state whose variable is unset/"0"/"1", let ANY finite
+(* the same for EVERY object of a state, however it was made (fresh, re-decorated, subclass) *)
+Theorem C09_inert_history : forall s i o h, wf s -> nth_error (objs s) i = Some o ->
+  redeco_only_disabled (env s) h = true ->
+  snd (step M (fst (run_ops M s h)) (OCall i)) = snd (step M s (OCall i)).
+Proof. exact (inert_call M C09_model_good). Qed.
+Print Assumptions C09_inert_history.
+
+(* and without any condition on the history (re-decorations while enabled included): what checks keeps checking *)
+Theorem C09_checked_stays_checked : forall s i o h, wf s -> nth_error (objs s) i = Some o ->
+  snd (step M s (OCall i)) = OCalled Checked -> snd (step M (fst (run_ops M s h)) (OCall i)) = OCalled Checked.
+Proof. exact (checked_stays M C09_model_good). Qed.
+Print Assumptions C09_checked_stays_checked.
+
+(* both halves in one statement: decorate (any of the seven) in ANY state whose variable is unset/"0"/"1", let a finite
    history follow (setenv to arbitrary values included), then call the decorated object: it is checked iff the switch was
-   unset or "1" when the decorator was applied, plain iff it was "0" *)
-Theorem C09_behaviour_fixed_at_decoration : forall s d x h, in_domain (env s) = true ->
-  snd (step M (fst (run_ops M (fst (step M s (ODecorate d x))) h)) (OCall (List.length (objs s)))) =
+   unset or "1" when the decorator was applied (after ANY history), plain iff it was "0" *)
+Theorem C09_behaviour_fixed_at_decoration : forall s d h, in_domain (env s) = true -> wf s ->
+  (spec_enabled (env s) = true \/ redeco_only_disabled (env s) h = true) ->
+  snd (step M (fst (run_ops M (fst (step M s (ODecorate d))) h)) (OCall (List.length (objs s)))) =
   OCalled (if spec_enabled (env s) then Checked else Plain).
 Proof. exact (behaviour_fixed M C09_model_good). Qed.
 Print Assumptions C09_behaviour_fixed_at_decoration.
@@ -131,23 +155,60 @@ Print Assumptions C09_behaviour_fixed_at_decoration.
    pedantic_require_docstring(), or a reference to a class decorator) in ANY state, let ANY finite history pass (toggles to
    arbitrary values, other creations, decorations, calls), apply it to a fresh target while the variable is unset/"0"/"1":
    the result is the very object iff the variable is "0" at the moment of APPLICATION, whatever it was at creation, and
-   under ANY further history the decorated object is checked iff the variable was unset/"1" at application *)
-Theorem C09_read_at_application_not_creation : forall s d h x h',
+   under further histories the decorated object is checked iff the variable was unset/"1" at application *)
+Theorem C09_read_at_application_not_creation : forall s d h h', wf s ->
   let s1 := fst (step M s (OCreate d)) in
   let k := List.length (decos s) in
   let s2 := fst (run_ops M s1 h) in
   in_domain (env s2) = true ->
-  snd (step M s2 (OApply k x)) = ODeco (negb (spec_enabled (env s2))) /\
-  snd (step M (fst (run_ops M (fst (step M s2 (OApply k x))) h')) (OCall (List.length (objs s2)))) =
+  (spec_enabled (env s2) = true \/ redeco_only_disabled (env s2) h' = true) ->
+  snd (step M s2 (OApply k)) = ODeco (negb (spec_enabled (env s2))) /\
+  snd (step M (fst (run_ops M (fst (step M s2 (OApply k))) h')) (OCall (List.length (objs s2)))) =
     OCalled (if spec_enabled (env s2) then Checked else Plain).
 Proof. exact (read_at_application M C09_model_good). Qed.
 Print Assumptions C09_read_at_application_not_creation.
 
-(* all observations of every in-domain history (create/apply included) are the ones the statement demands *)
+(* a decorator (written directly or a kept decorator object) is applied AGAIN to an object that went through a decorator
+   earlier - the object that was given then (again = false) or the one that came back (again = true), decorated at
+   whatever state of the switch: while the variable is "0" the result is the very object, NO cell of the heap changes, and
+   under later histories it does what the given object did; otherwise the result checks, for ever *)
+Theorem C09_redecoration_identity_iff_disabled : forall s src i (again : bool) o d e, in_domain (env s) = true -> wf s ->
+  nth_error (objs s) i = Some o -> resolve M s src = Some (d, e) -> fam d = o_fam o ->
+  let a := if again then o_res o else o_given o in
+  let r := step M s (ORedecorate src i again) in
+  let n := List.length (objs s) in
+  snd r = ODeco (negb (spec_enabled (env s))) /\
+  (spec_enabled (env s) = false ->
+     heap (fst r) = heap s /\ nth_error (objs (fst r)) n = Some {| o_fam := fam d; o_given := a; o_res := a |}) /\
+  (forall h, spec_enabled (env s) = true -> snd (step M (fst (run_ops M (fst r) h)) (OCall n)) = OCalled Checked) /\
+  (forall h, spec_enabled (env s) = false -> redeco_only_disabled (env s) h = true ->
+     snd (step M (fst (run_ops M (fst r) h)) (OCall n)) = OCalled (cell_behaviour M s a (env s))).
+Proof. exact (redecoration M C09_model_good). Qed.
+Print Assumptions C09_redecoration_identity_iff_disabled.
+
+(* class hierarchies: a fresh subclass of a class that went through a decorator (at whatever state of the switch) is
+   decorated: very object iff "0"; NO existing cell changes (the base class in particular) in either case; what the
+   subclass inherits behaves as the base class does; what it defines itself is checked iff the switch was on *)
+Theorem C09_subclass_decoration : forall s src i o d e, in_domain (env s) = true -> wf s ->
+  nth_error (objs s) i = Some o -> o_fam o = FCls -> resolve M s src = Some (d, e) -> fam d = FCls ->
+  let r := step M s (OSubDecorate src i) in
+  let n := List.length (objs s) in
+  snd r = ODeco (negb (spec_enabled (env s))) /\
+  (forall a, a < List.length (heap s) -> nth_error (heap (fst r)) a = nth_error (heap s) a) /\
+  (exists o', nth_error (objs (fst r)) n = Some o' /\ base_at (heap (fst r)) (o_given o') = Some (o_res o) /\
+              (spec_enabled (env s) = false -> o_res o' = o_given o') /\
+              forall e', inherited_behaviour M (fst r) (o_given o') e' = Some (cell_behaviour M s (o_res o) e')) /\
+  (forall h, spec_enabled (env s) = true \/ redeco_only_disabled (env s) h = true ->
+     snd (step M (fst (run_ops M (fst r) h)) (OCall n)) = OCalled (if spec_enabled (env s) then Checked else Plain)).
+Proof. exact (subclass_decoration M C09_model_good). Qed.
+Print Assumptions C09_subclass_decoration.
+
+(* all observations of every in-domain history (create/apply, re-decoration, subclasses included) meet what the
+   statement demands (obs_meets: equal, or nothing is demanded) *)
 Theorem C09_model_refines_spec : forall e h, in_domain e = true -> forallb op_in_domain h = true ->
-  snd (run_ops M {| env := e; objs := []; decos := [] |} h) = snd (spec_run {| s_env := e; s_objs := []; s_decos := 0 |} h).
+  Forall2 obs_meets (snd (run_ops M (init_state e) h)) (snd (spec_run (init_sstate e) h)).
 Proof.
-  intros e h He Hh. apply (run_refines M C09_model_good); [|exact Hh]. repeat split; auto.
+  intros e h He Hh. apply (run_refines M C09_model_good); [|exact Hh]. now apply rel_init.
 Qed.
 Print Assumptions C09_model_refines_spec.
 
@@ -165,26 +226,56 @@ Print Assumptions C09_enable_disable_roundtrip.
 (* non-vacuity: a concrete in-domain history; the object decorated while disabled stays unchecked
    after enable_pedantic(), the one decorated while enabled stays checked after disable_pedantic() *)
 Example C09_example :
-  let h := [ODisable; ODecorate DPedantic 0; OEnable; OCall 0; ODecorate DTraceClass 1; ODisable; OCall 1; OCall 0] in
-  forallb op_in_domain h = true /\
-  snd (run_ops M {| env := Unset; objs := []; decos := [] |} h) =
+  let h := [ODisable; ODecorate DPedantic; OEnable; OCall 0; ODecorate DTraceClass; ODisable; OCall 1; OCall 0] in
+  forallb op_in_domain h = true /\ redeco_only_disabled Unset h = true /\
+  snd (run_ops M (init_state Unset) h) =
     [ONone; ODeco true; ONone; OCalled Plain; ODeco false; ONone; OCalled Checked; OCalled Plain].
-Proof. split; vm_compute; reflexivity. Qed.
+Proof. repeat split; vm_compute; reflexivity. Qed.
 
 (* created while enabled, applied while disabled: the very object; created while disabled, applied while enabled: checked *)
 Example C09_example_create_apply :
-  let h := [OEnable; OCreate DForAllMethods; ODisable; OCreate DPedantic; OApply 0 0; OCall 0; OEnable; OApply 1 1; OApply 0 2;
-            ODisable; OCall 1; OCall 2; OCall 0; OApply 7 0] in
+  let h := [OEnable; OCreate DForAllMethods; ODisable; OCreate DPedantic; OApply 0; OCall 0; OEnable; OApply 1; OApply 0;
+            ODisable; OCall 1; OCall 2; OCall 0; OApply 7] in
   forallb op_in_domain h = true /\
-  snd (run_ops M {| env := Unset; objs := []; decos := [] |} h) =
+  snd (run_ops M (init_state Unset) h) =
     [ONone; ONone; ONone; ONone; ODeco true; OCalled Plain; ONone; ODeco false; ODeco false;
      ONone; OCalled Checked; OCalled Checked; OCalled Plain; ONone].
 Proof. split; vm_compute; reflexivity. Qed.
+
+(* a function decorated while the switch is on; switch off; the SAME function (what was given / what came back) is
+   decorated again: the very object both times, the first still plain, the second still checking.  A class decorated
+   while on; switch off; a subclass is decorated: the very object, plain; the base class keeps checking.  The
+   specification demands the same, except that it leaves open what the function given to the enabled decorator does. *)
+Example C09_example_redecoration :
+  let h := [ODecorate DPedantic; ODisable; ORedecorate (Direct DPedantic) 0 false; ORedecorate (Direct DPedanticReqDoc) 0 true;
+            OCall 1; OCall 2; OEnable; ODecorate DPedanticClass; ODisable; OSubDecorate (Direct DTraceClass) 3; OCall 4;
+            OCall 3; OCreate DForAllMethods; ORedecorate (Kept 0) 4 true; OCall 5; OEnable; ORedecorate (Direct DTimerClass) 4 true;
+            OCall 4; OCall 5; OCall 3; ORedecorate (Direct DPedantic) 3 true; OSubDecorate (Direct DPedantic) 0] in
+  forallb op_in_domain h = true /\ redeco_only_disabled Unset h = false /\
+  snd (run_ops M (init_state Unset) h) =
+    [ODeco false; ONone; ODeco true; ODeco true; OCalled Plain; OCalled Checked; ONone; ODeco false; ONone; ODeco true;
+     OCalled Plain; OCalled Checked; ONone; ODeco true; OCalled Plain; ONone; ODeco false; OCalled Checked; OCalled Checked;
+     OCalled Checked; ONone; ONone] /\
+  snd (spec_run (init_sstate Unset) h) =
+    [ODeco false; ONone; ODeco true; ODeco true; OUnspec; OCalled Checked; ONone; ODeco false; ONone; ODeco true;
+     OCalled Plain; OCalled Checked; ONone; ODeco true; OCalled Plain; ONone; ODeco false; OUnspec; OUnspec;
+     OCalled Checked; ONone; ONone].
+Proof. repeat split; vm_compute; reflexivity. Qed.
+
+(* the hypotheses of C09_redecoration_identity_iff_disabled / C09_subclass_decoration are satisfiable *)
+Example C09_example_hypotheses :
+  let s := fst (run_ops M (init_state Unset) [ODecorate DPedanticClass; OCreate DTimerClass; ODisable]) in
+  in_domain (env s) = true /\ nth_error (objs s) 0 = Some {| o_fam := FCls; o_given := 0; o_res := 0 |} /\
+  resolve M s (Kept 0) = Some (DTimerClass, env s) /\ resolve M s (Direct DTraceClass) = Some (DTraceClass, env s) /\
+  fam DTimerClass = FCls /\ spec_enabled (env s) = false /\
+  redeco_only_disabled (env s) [ORedecorate (Kept 0) 0 true; OEnable; OCall 0; ODisable; ORedecorate (Direct DTraceClass) 0 false] = true.
+Proof. repeat split; vm_compute; reflexivity. Qed.
 
 (* the hypotheses in_domain / op_in_domain are satisfiable by every value of the stated domain and by every operation
    that stays in it; other values are outside the statement (nothing is demanded of them here) *)
 Example C09_domain :
   map in_domain [Unset; Val "0"; Val "1"; Val "true"; Val ""]%string = [true; true; true; false; false] /\
-  map op_in_domain [OSetenv "0"; OSetenv "1"; OUnsetenv; OEnable; ODisable; ODecorate DForAllMethods 0; OCall 3; OCreate DTimerClass; OApply 0 0; OSetenv "2"]%string
-    = [true; true; true; true; true; true; true; true; true; false].
+  map op_in_domain [OSetenv "0"; OSetenv "1"; OUnsetenv; OEnable; ODisable; ODecorate DForAllMethods; OCall 3; OCreate DTimerClass;
+                    OApply 0; ORedecorate (Direct DPedantic) 0 true; OSubDecorate (Kept 1) 2; OSetenv "2"]%string
+    = [true; true; true; true; true; true; true; true; true; true; true; false].
 Proof. split; vm_compute; reflexivity. Qed.
